@@ -28,6 +28,7 @@ import (
 type readerSide struct {
 	Router   *mux.Router
 	Registry model.IDBRegistry
+	Name     string // session name (what ISqlxDB.GetName returns): identifies the harness a planner runs for
 }
 
 var readerInit sync.Once
@@ -54,7 +55,10 @@ func checkWiring() error {
 	return nil
 }
 
-var sessionSeq int
+var (
+	sessionMu  sync.Mutex
+	sessionSeq int
+)
 
 func newReaderSide(h fakesql.Handler, cluster string) *readerSide {
 	readerInit.Do(func() {
@@ -64,8 +68,11 @@ func newReaderSide(h fakesql.Handler, cluster string) *readerSide {
 		config.Cloki = cfg
 		logger.Logger.SetOutput(io.Discard)
 	})
+	sessionMu.Lock()
 	sessionSeq++
-	sess := fakesql.NewSession(fmt.Sprintf("c13-%d", sessionSeq), fakesql.New(h))
+	name := fmt.Sprintf("c13-%d", sessionSeq)
+	sessionMu.Unlock()
+	sess := fakesql.NewSession(name, fakesql.New(h))
 	reg, _ := fakesql.Registry(sess, "qryn", cluster)
 	app := mux.NewRouter()
 	apirouterv1.RouteQueryRangeApis(app, reg)
@@ -76,5 +83,5 @@ func newReaderSide(h fakesql.Handler, cluster string) *readerSide {
 	apirouterv1.RouteMiscApis(app)
 	apirouterv1.RouteProf(app, reg)
 	apirouterv1.PluggableRoutes(app, reg)
-	return &readerSide{Router: app, Registry: reg}
+	return &readerSide{Router: app, Registry: reg, Name: name}
 }
